@@ -50,6 +50,20 @@ CHECKS = {
             "864 on every 12th document). Held on the pairs observed.",
             "Trusted: the definition of block-valued key in mf/workloads/C06.py (values printed with an END).",
             "DESIGN.md 2 C06"),
+    "C07": ("independent conformance verdict (own schema loading / $ref inlining / lower-casing; jsonschema evaluator shared) + "
+            "fault injection with known locations + metamorphic relations + icontract never-raises contract on Validator.validate",
+            "Schema-valid generated documents of all 19 root types (zero messages), single and double faults of six kinds at every "
+            "object depth / list index (all 62 applicable (object type, fault kind) pairs), plus every loadable vocabulary, corpus "
+            "and mutated document. Held on the validate calls observed.",
+            "Trusted: jsonschema's Draft-4 evaluator and the schema files (shared with mappyfile); mf/schemamodel.py.",
+            "DESIGN.md 2 C07"),
+    "C08": ("contract on the parse result with the renderer's own token map as ground truth; renderer-free contract on the corpus; "
+            "error locations by fault injection with known token positions",
+            "Generated documents x surface renderings (tabs, form feeds, CRLF, comments, multi-line strings/comments, several keywords "
+            "per line): every opener/keyword position compared, value positions checked for source order; message locations for "
+            "1-2 injected faults. Held on the tokens observed.",
+            "Trusted: mf/render.py position tracking (LF counts a line, tab one column).",
+            "DESIGN.md 2 C08"),
     "C10": ("boundary relation: intended expression tree vs the string stored by the real parser, read back by an "
             "independent tokenizer + precedence parser; fixed-point and printed-unquoted relations on the same events",
             "All operator structures up to 3 (quick) / 4 (thorough) operators and random trees up to 12 operators, every "
